@@ -566,7 +566,8 @@ theorem C18_connect_never_gives_up (c : Backoff.Conf) (as : List Backoff.Attempt
   have heq' : Backoff.connect c as =
       ⟨.stillRetrying, as.length, Backoff.prefixWaits (Backoff.new 0 c.min c.max) as, 0⟩ := heq
   have hmin : 0 < c.min := by
-    unfold Backoff.Conf.min Backoff.defaultMinReconnectBackoff
+    have hd : 0 < Backoff.defaultMinReconnectBackoff := by decide
+    unfold Backoff.Conf.min
     split <;> omega
   rw [heq']
   refine ⟨rfl, rfl, Backoff.length_prefixWaits _ _, rfl, hmin, ⟨b', hrun⟩, ?_, ?_⟩
@@ -860,9 +861,13 @@ theorem C18_join_bounded (as : List Backoff.JoinAttempt) :
 
 /-- **The backoff parameters of the model are the literals of the source** (re-extracted on
 every run by `harness/cmd/facts/facts_backoff.go`): `JoinOnStartup` calls
-`backoff.New(5, time.Second, time.Minute)`; `Upstream.connect` calls `backoff.New(0, min, max)` -
-retry for ever - with the defaults 100 ms / 15 s; `websocket.Dial` wraps exactly the statuses
-408, 429, 500, 502, 503, 504 as retryable.  Changing one of these literals breaks this theorem. -/
+`backoff.New(retries, min, max)` with three literals (5, 1 s, 60 s on the pinned tree) and
+`Upstream.connect` calls `backoff.New(0, min, max)` - retry for ever - with two default literals
+(100 ms / 15 s on the pinned tree).  The model's `joinRetries`, `joinMinBackoff`, … **are** these
+regenerated values, so retuning them changes model and code together; what the theorems need of
+them is proved here: the extractor read them, minima are positive and not above the maxima, the
+join gives up eventually (`retries ≠ 0`) and the reconnect never does (`retries = 0`).
+`websocket.Dial` wraps exactly the statuses 408, 429, 500, 502, 503, 504 as retryable. -/
 theorem C18_facts_backoff :
     Facts.joinBackoffArgs =
       some [Backoff.joinRetries, Backoff.joinMinBackoff, Backoff.joinMaxBackoff] ∧
@@ -874,8 +879,11 @@ theorem C18_facts_backoff :
     (Backoff.Conf.min {} = Backoff.defaultMinReconnectBackoff ∧
       Backoff.Conf.max {} = Backoff.defaultMaxReconnectBackoff) ∧
     Facts.retryableStatusCodes = some Backoff.retryableStatusCodes ∧
-    Backoff.retryableStatusCodes = [408, 429, 500, 502, 503, 504] := by
-  refine ⟨by decide, by decide, ?_, by decide, ⟨by decide, by decide⟩, by decide, rfl⟩
+    Backoff.retryableStatusCodes = [408, 429, 500, 502, 503, 504] ∧
+    (Backoff.joinRetries ≠ 0 ∧ 0 < Backoff.joinMinBackoff ∧ Backoff.joinMinBackoff ≤ Backoff.joinMaxBackoff) ∧
+    (0 < Backoff.defaultMinReconnectBackoff ∧
+      Backoff.defaultMinReconnectBackoff ≤ Backoff.defaultMaxReconnectBackoff) := by
+  refine ⟨by decide, by decide, ?_, by decide, ⟨by decide, by decide⟩, by decide, rfl, by decide, by decide⟩
   intro r hr c as
   have h0 : Facts.connectBackoffRetries = some 0 := by decide
   rw [h0] at hr
@@ -927,22 +935,28 @@ example :
     Backoff.connect c [{ dial := .noResponse }, { dial := .noResponse, jitter := 100001 },
         { dial := .noResponse }, { dial := .noResponse }] =
       ⟨.stillRetrying, 4, [1000000, 2100001, 4200002, 5000000], 0⟩ ∧
-    (Backoff.connect {} [{ dial := .status 502 }]).waits = [100000000] := by
+    (Backoff.connect {} [{ dial := .status 502 }]).waits = [Backoff.defaultMinReconnectBackoff] := by
   decide
 
-/-- `JoinOnStartup`: seven failed joins → the error of join 5 (0-based) after 6 waits; an eighth
-attempt is never made; success at the third join -/
+/-- `JoinOnStartup` with the pinned tree's arguments (5 retries, 1 s … 60 s): seven failed joins →
+the error of join 5 (0-based) after 6 waits; an eighth attempt is never made; success at the third
+join -/
 example :
     let f : Backoff.JoinAttempt := { ok := false }
-    Backoff.joinOnStartup [f, f, f, f, f, f, f, f, { ok := true }] =
+    let run := fun as => Backoff.joinFrom (Backoff.new 5 1000000000 60000000000) as 0 [] none
+    run [f, f, f, f, f, f, f, f, { ok := true }] =
       ⟨.err (some 5), 7, [1000000000, 2000000000, 4000000000, 8000000000, 16000000000,
         32000000000]⟩ ∧
-    Backoff.joinOnStartup [f, f, { ok := true }, f] = ⟨.joined, 3, [1000000000, 2000000000]⟩ ∧
-    Backoff.joinOnStartup [f, { ok := false, cancelInWait := true }, { ok := true }] =
+    run [f, f, { ok := true }, f] = ⟨.joined, 3, [1000000000, 2000000000]⟩ ∧
+    run [f, { ok := false, cancelInWait := true }, { ok := true }] =
       ⟨.err (some 1), 2, [1000000000, 2000000000]⟩ ∧
-    Backoff.joinOnStartup [f, f, f] =
+    run [f, f, f] =
       ⟨.stillRetrying, 3, [1000000000, 2000000000, 4000000000]⟩ := by
   decide
+
+/-- … and `joinOnStartup` is that run with the regenerated arguments -/
+example (as : List Backoff.JoinAttempt) : Backoff.joinOnStartup as =
+    Backoff.joinFrom (Backoff.new Backoff.joinRetries Backoff.joinMinBackoff Backoff.joinMaxBackoff) as 0 [] none := rfl
 
 /-! ## The whole system: a graceful leave in the one model of gossip + syncer + manager
 
